@@ -225,7 +225,7 @@ proof fn lemma_own_release(q: Seq<Queued>, c: KCoord, n: int)
         // nothing but the queue-length memo is ever written
         final(self).coord == old(self).coord, final(self).timeout == old(self).timeout, final(self).delay == old(self).delay,
         final(self).ticks == old(self).ticks, final(self).hold == old(self).hold, final(self).tap == old(self).tap,
-        final(self).timeout_action == old(self).timeout_action,
+        final(self).timeout_action == old(self).timeout_action, final(self).config == old(self).config, final(self).layer_stack == old(self).layer_stack,
         // nothing new in the queue and the timeout still running: no decision (fast path)
         (queued@.len() as u8 == old(self).prev_queue_len && old(self).timeout > 0) ==> r.is_none() && final(self).prev_queue_len == old(self).prev_queue_len,
         // otherwise: the decision table
@@ -299,6 +299,76 @@ pub assume_specification<V> [core::cmp::min] (a: V, b: V) -> (r: V)
 proof fn axiom_min_usize(a: usize, b: usize)
     ensures #[trigger] min_spec_of::<usize>(a, b) == (if a <= b { a } else { b }),
 { unimplemented!() }
+
+// ---------------------------------------------------------------------------------------
+// WaitingState::tick_wt, cut WHOLE: one millisecond passes for the pending decision.  Its callee
+// handle_hold_tap is the function under contract above (the caller is checked against that
+// contract, not its body); handle_tap_dance and handle_chord are stubs.  This is the unbounded
+// counterpart of the bounded harnesses c05_b_tick_wt_hold_tap / c05_b_timeout_on_time: "hold (or the
+// timeout action) exactly when the timeout elapses" - the decision table is consulted with the
+// timeout ALREADY decremented, so the tick on which the last millisecond elapses is the tick that
+// reports Timeout.
+// ---------------------------------------------------------------------------------------
+//@ raw
+#[verifier::external_body]
+pub struct PressedQueue { verif_opaque: u8 }
+#[verifier::reject_recursive_types(T)]
+#[verifier::external_body]
+pub struct ActionQueue<'a, T> { p: core::marker::PhantomData<&'a T> }
+pub uninterp spec fn chord_res<'a, T>(w: WaitingState<'a, T>, config: &'a ChordsGroup<'a, T>, q: Seq<Queued>) -> Option<(WaitingAction, &'a Action<'a, T>, PressedQueue)>;
+pub uninterp spec fn chord_self<'a, T>(w: WaitingState<'a, T>, config: &'a ChordsGroup<'a, T>, q: Seq<Queued>) -> WaitingState<'a, T>;
+impl<'a, T> WaitingState<'a, T> {
+    /// handle_chord (try_fold with closures that mutate captured state): NOT under contract here; some
+    /// function of the state, the chord table and the queue (C09's bounded harnesses look inside)
+    #[verifier::external_body]
+    fn handle_chord(&mut self, config: &'a ChordsGroup<'a, T>, queued: &mut Queue, action_queue: &mut ActionQueue<'a, T>) -> (r: Option<(WaitingAction, &'a Action<'a, T>, PressedQueue)>)
+        ensures r == chord_res(*old(self), config, old(queued)@), *final(self) == chord_self(*old(self), config, old(queued)@),
+    { unimplemented!() }
+}
+spec fn sat_add(a: u16, b: u16) -> u16 { if a + b <= 0xFFFF { (a + b) as u16 } else { 0xFFFFu16 } }
+/// the pending decision after one more millisecond
+spec fn aged<'a, T>(w: WaitingState<'a, T>) -> WaitingState<'a, T> {
+    WaitingState { timeout: sat_sub(w.timeout, 1), ticks: sat_add(w.ticks, 1), ..w }
+}
+
+//@ raw
+/// a tap-hold key, one millisecond later: the decision table, consulted AFTER the countdown
+spec fn ht_result<'a, T>(w: WaitingState<'a, T>, cfg: HoldTapConfig<'a>, q: Seq<Queued>) -> Option<WaitingAction> {
+    let w1 = aged(w);
+    if q.len() as u8 == w1.prev_queue_len && w1.timeout > 0 { None } else { decision(w1, cfg, q) }
+}
+//@ item keyberon/src/layout.rs fn tick_wt in `WaitingState<'a, T>`
+//@@ wrap impl<'a, T> WaitingState<'a, T>
+//@@ resub R31 1 /WaitingConfig::TapDance\(ref tds\) => \{/ => `WaitingConfig::TapDance(verif_tds) => { let tds = &verif_tds;`
+//@@ resub R12 1 /ret\.map\(\|v\| \(v, pq\)\)/ => `ret.map(|v: WaitingAction| -> (m: (WaitingAction, Option<PressedQueue>)) ensures m == (v, pq) { (v, pq) })`
+//@@ ret r
+//@@ spec
+    requires
+        old(queued)@.len() <= 32,
+        old(self).config matches WaitingConfig::TapDance(t) ==> t.actions@.len() >= 1,
+    ensures
+        // one millisecond: the timeout counts down, the age counts up (both saturating)
+        !(old(self).config is Chord) ==> final(self).ticks == sat_add(old(self).ticks, 1),
+        // a tap-hold key: the decision table, consulted AFTER the countdown; nothing else changes
+        old(self).config matches WaitingConfig::HoldTap(cfg) ==> ht_result(*old(self), cfg, old(queued)@) is None ==> r is None,
+        old(self).config matches WaitingConfig::HoldTap(cfg) ==> (ht_result(*old(self), cfg, old(queued)@) matches Some(a) ==> r matches Some(p) && p.0 == a && p.1 is None),
+        old(self).config matches WaitingConfig::HoldTap(cfg) ==> final(self).timeout == sat_sub(old(self).timeout, 1),
+        old(self).config matches WaitingConfig::HoldTap(cfg) ==> final(self).config == old(self).config,
+        old(self).config matches WaitingConfig::HoldTap(cfg) ==> final(self).coord == old(self).coord && final(self).delay == old(self).delay
+            && final(self).hold == old(self).hold && final(self).tap == old(self).tap && final(self).timeout_action == old(self).timeout_action,
+        old(self).config matches WaitingConfig::HoldTap(cfg) ==> final(queued)@ == old(queued)@,
+        // a tap-dance key: the count goes on with what handle_tap_dance reports (details: the
+        // fragment tick_wt_tap_dance below)
+        old(self).config matches WaitingConfig::TapDance(t) ==> {
+            let d = td_decide(aged(*old(self)), t.num_taps, t.actions@.len() as usize, old(queued)@);
+            &&& (d.0 is None ==> r is None)
+            &&& (d.0 matches Some(a) ==> r matches Some(p) && p.0 == a && p.1 is None)
+            &&& final(self).config matches WaitingConfig::TapDance(t2) && t2.num_taps == d.1 && t2.actions@ == t.actions@ && t2.timeout == t.timeout
+        },
+//@@ before-re 1 /let mut pq = None;/
+    proof { assert(*self == aged(*old(self))); }
+//@@ before-re 1 /let idx =/
+    proof { axiom_min_usize(num_taps as usize, tds.actions@.len() as usize); }
 
 //@ fragment keyberon/src/layout.rs fn tick_wt in `WaitingState<'a, T>` block-after `WaitingConfig::TapDance(ref tds) => {` as tick_wt_tap_dance
 //@@ wrap impl<'a, T> WaitingState<'a, T>
